@@ -351,6 +351,7 @@ class Check:
         self.lines = []
         self.scratch = os.path.join(BUILD, "run-%d" % os.getpid())
         self.jobs = 16 if tier == "thorough" else 8
+        self.probe_b = {}
 
     def log(self, s):
         self.lines.append(s)
@@ -443,6 +444,7 @@ class Check:
                                 fails.append((sig, r[1] + " [then op %d args %s]" % (b_case[0], str([list(x)[:12] for x in b_case[1]])[:200]),
                                               a_case, ires[cases.index(a_case)]))
                                 oracle_fail.append((sname, sig, fails[-1][1], a_case, fails[-1][3]))
+                                self.probe_b[sig] = b_case
                                 break
                     cov["streams"][sname] = {"cases": len(cases), "mode": mode, "mismatches": nm, "live_probe_pairs": n_probe,
                                              "oracle_checked": len(ocases), "oracle_failures": len(fails),
@@ -466,7 +468,9 @@ class Check:
                 violations.append((sig, msg, {"property": pid, "kind": "property-fails-on-implementation",
                                               "stream": sname, "signature": sig, "message": msg,
                                               "op": c[0], "args": [list(x) for x in c[1]],
-                                              "impl_result": ires, "seed": self.seed}, True))
+                                              "impl_result": ires, "seed": self.seed,
+                                              **({"then_op": self.probe_b[sig][0], "then_args": [list(x) for x in self.probe_b[sig][1]]}
+                                                 if sig in self.probe_b else {})}, True))
             if mismatches:
                 broken.append({"kind": "correspondence", "detail": "%d disagreeing cases, first: stream=%s op=%d args=%s model=%s impl=%s" % (
                     len(mismatches), mismatches[0][0], mismatches[0][1][0], [list(x)[:16] for x in mismatches[0][1][1]],
@@ -573,6 +577,14 @@ def replay(prop, path):
         print(json.dumps(payload, indent=1)[:4000])
         return 1
     c = (payload["op"], [list(x) for x in payload["args"]])
+    if "/live-object/" in payload.get("signature", "") and "then_op" in payload:
+        from harness import liveprobe
+        r = liveprobe.probe_pair(prop.impl, c, (payload["then_op"], [list(x) for x in payload["then_args"]]))
+        print("replay live-object probe: op=%d then op=%d -> %s" % (c[0], payload["then_op"], r))
+        if r is not None:
+            print("VIOLATION property=%s replay=%s" % (prop.ID, path))
+            return 1
+        return 0
     ires = run_impl(prop.impl, c[0], c[1])
     chk = Check(prop, "quick", payload.get("seed", 0))
     fails = chk.run_oracle([(c, ires)])
